@@ -36,7 +36,11 @@ EXPLANATION = (
     "R1.10 in the resolved call closure (depth 4) of the request handlers and of the per-step hooks (apply_timestep / "
     "pre_timestep), a single-argument `table.pop(key)` whose key is a string handed in by the caller, or whose table belongs "
     "to another component (self.parent.x.t / self.software_manager.x.t), is dominated by a membership test of that same "
-    "table (`k in t`, `t.get(k)`, a local bound to it, a helper predicate) or listed in a triage table with its invariant. "
+    "table (`k in t`, `t.get(k)`, a local bound to it, a helper predicate) or listed in a triage table with its invariant; "
+    "R1.11 two contradiction rules: on the edge of a `k >= len(T)` test T[k] is not read before k is re-bound, and no loop over a "
+    "live view of self.T reaches (two calls deep) a removal from / insertion into self.T; R1.12 the values of RequestResponse "
+    "`data` dictionaries are JSON-serialisable by static type (no raw IPv4Address / set / datetime / Path) because the action log "
+    "written by reset()/close() json-dumps every response. "
     "NOT decided: that no input whatsoever makes a library call raise (KeyError/IndexError/validation errors on "
     "run-time values) and finiteness of rewards as numbers."
 )
@@ -817,6 +821,175 @@ def r1_10(ctx: Ctx) -> None:
 
 
 
+def r1_11(ctx: Ctx) -> None:
+    """Two more contradiction rules (a stated belief, then code that ignores it), both ending in an exception out of step()/reset():
+    (a) a function that tests `k >= len(T)` believes k may be out of range; on that edge `T[k]` must not be reached before k is
+        re-bound (folded back, clamped);
+    (b) a loop over a live view of `self.T` (the attribute itself, .values(), .items(), .keys()) must not call - directly or through
+        its own methods, two calls deep - code that removes from or adds to `self.T`: "dictionary changed size during iteration"."""
+    ix = ctx.ix
+    ctx.rule("R1.11", "(a) on the `k >= len(T)` edge T[k] is not read before k is re-bound; (b) no loop over a live view of self.T "
+                      "reaches a removal from / insertion into self.T (snapshot with list(...) first)")
+    n_a = n_b = 0
+    for f in ix.functions:
+        if isinstance(f.node, ast.Lambda) or not f.path.startswith("src/primaite/"):
+            continue
+        has_len = any(isinstance(x, ast.Compare) and any(isinstance(y, ast.Call) and isinstance(y.func, ast.Name) and y.func.id == "len" for y in ast.walk(x))
+                      for x in ast.walk(f.node))
+        has_for = any(isinstance(x, ast.For) for x in ast.walk(f.node))
+        if not (has_len or has_for):
+            continue
+        g = None
+        if has_len:
+            g = CFG(f.node)
+            for e in g.edges():
+                if not (e.label and e.label[0] == "cond" and isinstance(e.label[1], ast.Compare) and len(e.label[1].ops) == 1):
+                    continue
+                c = e.label[1]
+                l, op, r = c.left, c.ops[0], c.comparators[0]
+                k = tbl = None
+                oob_when = None
+                if isinstance(l, ast.Name) and isinstance(r, ast.Call) and isinstance(r.func, ast.Name) and r.func.id == "len" and r.args:
+                    k, tbl = l.id, unparse(r.args[0])
+                    oob_when = True if isinstance(op, ast.GtE) else (False if isinstance(op, ast.Lt) else None)
+                elif isinstance(r, ast.Name) and isinstance(l, ast.Call) and isinstance(l.func, ast.Name) and l.func.id == "len" and l.args:
+                    k, tbl = r.id, unparse(l.args[0])
+                    oob_when = True if isinstance(op, ast.LtE) else (False if isinstance(op, ast.Gt) else None)
+                if k is None or oob_when is None or e.label[2] is not oob_when:
+                    continue
+                reads = [n for n in g.nodes if n.ast is not None and n.kind in ("stmt", "cond") and n.expr_root() is not None and any(
+                    isinstance(x, ast.Subscript) and isinstance(x.ctx, ast.Load) and unparse(x.value) == tbl and isinstance(x.slice, ast.Name)
+                    and x.slice.id == k for x in ast.walk(n.expr_root()))]
+                if not reads:
+                    continue
+                n_a += 1
+                rebinds = {n.id for n in g.nodes if isinstance(n.ast, (ast.Assign, ast.AugAssign, ast.AnnAssign)) and any(
+                    isinstance(t, ast.Name) and t.id == k for t in ast.walk(n.ast) if isinstance(t, ast.Name) and isinstance(t.ctx, ast.Store))}
+                p = None if e.dst.id in rebinds else g.path_avoiding(reads, lambda x: False, start=e.dst, blocked_nodes=rebinds)
+                if e.dst in reads and e.dst.id not in rebinds:
+                    p = []
+                ctx.record("R1.11", ctx.key(f, f"{tbl}[{k}] is not read on the `{k}` out-of-range edge"), f.loc(c), p is None,
+                           f"on the edge where {k} >= len({tbl}) every path re-binds {k} before {tbl}[{k}] is read" if p is None else
+                           f"`{unparse(c)}` states that {k} may be out of range, yet {tbl}[{k}] is reached on that edge without {k} being "
+                           f"re-bound: KeyError / IndexError", path_text(p) if p else None)
+        if has_for and f.cls is not None:
+            for loop in [x for x in ast.walk(f.node) if isinstance(x, ast.For)]:
+                it = loop.iter
+                base = it.func.value if (isinstance(it, ast.Call) and isinstance(it.func, ast.Attribute) and it.func.attr in ("values", "items", "keys")
+                                         and not it.args) else it
+                if not (isinstance(base, ast.Attribute) and isinstance(base.value, ast.Name) and base.value.id == "self"):
+                    continue
+                attr = base.attr
+                n_b += 1
+
+                def mutates(fn_: FuncInfo, depth: int, seen: Set[int]) -> Optional[str]:
+                    for x in ast.walk(fn_.node) if fn_ is not f else [y for b in loop.body for y in ast.walk(b)]:
+                        if isinstance(x, ast.Call) and isinstance(x.func, ast.Attribute) and x.func.attr in ("pop", "popitem", "clear", "remove", "append", "add", "update", "setdefault") \
+                                and unparse(x.func.value) == f"self.{attr}":
+                            return f"{fn_.short}: {unparse(x)[:60]}"
+                        if isinstance(x, ast.Delete) and any(isinstance(t, ast.Subscript) and unparse(t.value) == f"self.{attr}" for t in x.targets):
+                            return f"{fn_.short}: {unparse(x)[:60]}"
+                        if isinstance(x, ast.Call) and isinstance(x.func, ast.Attribute) and unparse(x.func.value) == "self" and depth > 0:
+                            h = ix.find_method(f.cls, x.func.attr)
+                            if h is not None and id(h) not in seen and not isinstance(h.node, ast.Lambda):
+                                seen.add(id(h))
+                                r_ = mutates(h, depth - 1, seen)
+                                if r_:
+                                    return r_
+                    return None
+
+                hit = mutates(f, 2, {id(f)})
+                # leaving the loop right after the mutation (break / return in the same block) is safe
+                if hit:
+                    g = g or CFG(f.node)
+                    fornode = next((n for n in g.nodes if n.kind == "for" and n.ast is loop), None)
+                    body_calls = [n for n in g.nodes if loop in n.loops and n.kind in ("stmt", "cond") and n.expr_root() is not None and (
+                        any(isinstance(x, ast.Call) for x in ast.walk(n.expr_root())) or isinstance(n.ast, ast.Delete))]
+                    again = fornode is not None and any(g.path_avoiding([fornode], lambda e: False, start=n) is not None for n in body_calls)
+                    if not again:
+                        hit = None
+                ctx.record("R1.11", ctx.key(f, f"loop over self.{attr} does not change self.{attr}"), f.loc(loop), hit is None,
+                           f"the body (two calls deep) neither removes from nor inserts into self.{attr}" if hit is None else
+                           f"the loop iterates over a live view of self.{attr} while {hit} changes its size: RuntimeError on the next iteration")
+    ctx.floor("R1.11", "out-of-range edges with a read of the same index", n_a, 1)
+    ctx.floor("R1.11", "loops over a live view of a self attribute", n_b, 40)
+
+
+
+NON_JSON_TYPES = ("IPv4Address", "IPV4Address", "IPv4Network", "IPv6Address", "datetime", "Path", "Set[", "set[", "FrozenSet", "frozenset")
+
+
+def r1_12(ctx: Ctx) -> None:
+    """Every response ends up in the agent history, which reset()/close() write with json.dump(default=model_dump): a value that is
+    neither JSON nor a pydantic model (an IPv4Address, a set, a datetime ...) makes the *next reset* raise.  Values of response `data`
+    dictionaries whose static type (annotation of the attribute / parameter / local read) is such a type must be converted."""
+    from ..types import func_types
+    ix = ctx.ix
+    ctx.rule("R1.12", "values placed in RequestResponse data are JSON-serialisable by their static type (no raw IPv4Address / set / "
+                      "datetime / Path): the action log written at reset()/close() json-dumps them")
+    n = 0
+    for f in ix.functions:
+        if not f.path.startswith("src/primaite/simulator/"):
+            continue
+        dicts: List[ast.Dict] = []
+        for x in ast.walk(f.node):
+            if isinstance(x, ast.Call) and call_name(x) in ("RequestResponse",) :
+                d = kwarg(x, "data")
+                if isinstance(d, ast.Dict):
+                    dicts.append(d)
+            if isinstance(x, ast.Assign) and isinstance(x.value, ast.Dict) and any(isinstance(t, ast.Attribute) and t.attr == "data" for t in x.targets):
+                dicts.append(x.value)
+        if not dicts:
+            continue
+        ft = func_types(ix, f) if not isinstance(f.node, ast.Lambda) else None
+        ld = LocalDefs(f.node) if not isinstance(f.node, ast.Lambda) else None
+
+        def static_ann(e: ast.AST) -> Optional[str]:
+            if isinstance(e, ast.Call) and isinstance(e.func, ast.Name) and e.func.id in ("IPv4Address", "IPv4Network", "set", "frozenset", "Path"):
+                return e.func.id if e.func.id not in ("set", "frozenset") else "set["
+            if isinstance(e, ast.Attribute) and ft is not None:
+                rc, sh = ft.expr_type(e.value)
+                if rc is not None and sh == "scalar":
+                    fld = ix.find_field(rc, e.attr)
+                    if fld is not None and fld[1].ann is not None:
+                        return unparse(fld[1].ann)
+            if isinstance(e, ast.Name) and ld is not None:
+                for a in f.node.args.args + f.node.args.kwonlyargs:
+                    if a.arg == e.id and a.annotation is not None:
+                        return unparse(a.annotation)
+                for st in ast.walk(f.node):
+                    if isinstance(st, ast.AnnAssign) and isinstance(st.target, ast.Name) and st.target.id == e.id:
+                        return unparse(st.annotation)
+                d_ = ld.single(e.id)
+                if d_ and d_[0] is not None and d_[1] is None and not isinstance(d_[0], ast.Name):
+                    return static_ann(d_[0])
+            return None
+
+        def visit(v: ast.AST) -> None:
+            nonlocal n
+            if isinstance(v, ast.Dict):
+                for vv in v.values:
+                    visit(vv)
+                return
+            if isinstance(v, (ast.List, ast.Tuple)):
+                for vv in v.elts:
+                    visit(vv)
+                return
+            n += 1
+            ann = static_ann(v)
+            bad = ann is not None and any(t in ann for t in NON_JSON_TYPES)
+            ctx.record("R1.12", ctx.key(f, f"response data value {unparse(v)[:50]} is serialisable"), f.loc(v), not bad,
+                       f"static type {ann or 'not a known non-JSON type'}" if not bad else
+                       f"`{unparse(v)[:60]}` has static type {ann}: json.dump of the action log (default=model_dump) raises AttributeError "
+                       f"at the next reset()/close() once a response carrying it is in an agent's history; convert it (str(...))")
+
+        for d in dicts:
+            for vv in d.values:
+                visit(vv)
+    ctx.floor("R1.12", "response data values inspected", n, 30)
+
+
+
 def check(ctx: Ctx) -> None:
     r1_9(ctx)
     r1_8(ctx)
@@ -828,3 +1001,5 @@ def check(ctx: Ctx) -> None:
     r1_6(ctx)
     r1_7(ctx)
     r1_10(ctx)
+    r1_11(ctx)
+    r1_12(ctx)
